@@ -284,7 +284,9 @@ def _list_cover(run: Run, prog: Program, model: Model, tier: str) -> None:
                 if isinstance(start, Const) and isinstance(start.value, int) and n is not None:
                     want_lo.append(str(start.value + n))
                 for e in p.events:
-                    if e.func != (se.qualname if se else "") or e.kind not in ("loop", "comp_iter") or e.nfacts < c.nfacts:
+                    # (the loops may sit in a nested helper / generator function of _substitute_elements)
+                    in_se = se is not None and (e.func == se.qualname or any(q == se.qualname for q in (e.stack or ())))
+                    if not in_se or e.kind not in ("loop", "comp_iter") or e.nfacts < c.nfacts:
                         continue
                     it = e.data["iterable"]
                     # for i in range(lo, len(value)) / range(start)
